@@ -50,6 +50,9 @@ func VerifSamplerregRegistry(f *SamplerFactory) (reg map[string]any, goals map[s
 	defer f.mutex.Unlock()
 	reg = make(map[string]any, len(f.sharedDynsamplers))
 	for k, e := range f.sharedDynsamplers {
+		if k == verifSamplerregSentinel {
+			continue
+		}
 		reg[k] = e.dynsampler
 	}
 	goals = make(map[string]int, len(f.goalThroughputConfigs))
@@ -57,4 +60,29 @@ func VerifSamplerregRegistry(f *SamplerFactory) (reg map[string]any, goals map[s
 		goals[k] = v
 	}
 	return reg, goals, f.peerCount
+}
+
+const verifSamplerregSentinel = "\x00verif-sentinel"
+
+// VerifSamplerregSentinel puts (on=true) or removes a marker entry without a dynsampler in the
+// registry, so that a harness can tell whether ClearDynsamplers has run; it reports whether the
+// marker was present before the call.
+func VerifSamplerregSentinel(f *SamplerFactory, on bool) (was bool) {
+	f.mutex.Lock()
+	defer f.mutex.Unlock()
+	_, was = f.sharedDynsamplers[verifSamplerregSentinel]
+	if on {
+		f.sharedDynsamplers[verifSamplerregSentinel] = sharedDynsamplerEntry{}
+	} else {
+		delete(f.sharedDynsamplers, verifSamplerregSentinel)
+	}
+	return was
+}
+
+// VerifSamplerregHasSentinel reports whether the marker entry is in the registry.
+func VerifSamplerregHasSentinel(f *SamplerFactory) bool {
+	f.mutex.Lock()
+	defer f.mutex.Unlock()
+	_, ok := f.sharedDynsamplers[verifSamplerregSentinel]
+	return ok
 }
